@@ -130,6 +130,12 @@ class WebSocketWriter:
         """
         msg_length = len(message)
 
+        # A send that was already waiting for the lock or the executor when
+        # close() wrote the Close frame must not follow it on the wire.
+        # https://datatracker.ietf.org/doc/html/rfc6455#section-5.5.1
+        if self._closing and opcode != WSMsgType.CLOSE:
+            raise ClientConnectionResetError("Cannot write to closing transport")
+
         use_mask = self.use_mask
         mask_bit = 0x80 if use_mask else 0
 
@@ -169,6 +175,8 @@ class WebSocketWriter:
             self.transport.write(header + message)
 
         self._output_size += header_len + msg_length
+        if opcode == WSMsgType.CLOSE:
+            self._closing = True
 
     def _get_compressor(self, compress: int | None) -> ZLibCompressor:
         """Get or create a compressor object for the given compression level."""
